@@ -25,6 +25,7 @@ use zverif::{check, Fail, Tier};
 use zipora::containers::specialized::{EasyHashMap, GoldHashIdx, HashStrMap, SmallMap};
 use zipora::hash_map::{GoldHashMap, GoldHashMapConfig, IterationStrategy, LinkType, ZiporaHashMap, ZiporaHashMapConfig};
 use zipora::memory::{SecureMemoryPool, SecurePoolConfig};
+use zipora::string::FastStr;
 
 // ---------------------------------------------------------------------------------------------
 // hostile hashers
@@ -85,6 +86,46 @@ impl BuildHasher for FixedSip {
 }
 
 // ---------------------------------------------------------------------------------------------
+// key types
+
+/// The adapters are generic over the key type; operations and the model keep naming keys by a `u64`.
+pub trait ZKey: Hash + Eq + Clone + 'static {
+    fn mk(k: u64) -> Self;
+    fn back(&self) -> u64;
+}
+impl ZKey for u64 {
+    fn mk(k: u64) -> u64 {
+        k
+    }
+    fn back(&self) -> u64 {
+        *self
+    }
+}
+
+/// (coverage audit) A key whose `Hash` feeds only `group` to the hasher while `Eq` compares `(group, id)`: keys
+/// `10 g + i` (i < 10) of one group have the IDENTICAL full 64-bit hash under every hasher (also the fixed / randomly
+/// seeded ones), keys of different groups hash like the plain `u64` values g.  Maps that cache a hash per slot
+/// (`bucket.hash == hash && bucket.key == key`) are only correct if the key comparison is really made.
+#[derive(Clone, PartialEq, Eq, Debug)]
+pub struct GK {
+    group: u64,
+    id: u64,
+}
+impl Hash for GK {
+    fn hash<H: Hasher>(&self, h: &mut H) {
+        h.write_u64(self.group);
+    }
+}
+impl ZKey for GK {
+    fn mk(k: u64) -> GK {
+        GK { group: k / 10, id: k % 10 }
+    }
+    fn back(&self) -> u64 {
+        self.group * 10 + self.id
+    }
+}
+
+// ---------------------------------------------------------------------------------------------
 // adapter
 
 pub trait MapLike {
@@ -110,20 +151,45 @@ pub trait MapLike {
     fn insert_reports_previous(&self) -> bool {
         true
     }
+    // ---- coverage audit: further entry points of the public API, each "where offered" (`None` = not offered)
+    /// a second insertion entry point (bulk / by-value variants); afterwards k maps to v
+    fn insert2(&mut self, _k: u64, _v: u64) -> Option<Result<(), String>> {
+        None
+    }
+    /// entry API: the value stored for k afterwards (the old one if k was present, else v)
+    fn get_or_insert(&mut self, _k: u64, _v: u64) -> Option<Result<u64, String>> {
+        None
+    }
+    /// `retain(|key, _| key != k)`; false = not offered
+    fn retain_not(&mut self, _k: u64) -> bool {
+        false
+    }
+    /// maintenance operations that must not change the abstract map: 0 = shrink_to_fit, 1 = reserve(8), 2 = toggle the hash cache
+    fn maint(&mut self, _which: u8) -> Option<Result<(), String>> {
+        None
+    }
+    /// a second lookup entry point (`get_fast`, `get_batch`, `get_by_fast_str`, `get_or_default`); `Err` = it panicked
+    fn get2(&self, _k: u64) -> Option<Result<Option<u64>, String>> {
+        None
+    }
+    /// `Clone`
+    fn clone_box(&self) -> Option<Box<dyn MapLike>> {
+        None
+    }
 }
 
-impl<S: BuildHasher> MapLike for ZiporaHashMap<u64, u64, S> {
+impl<K: ZKey, S: BuildHasher> MapLike for ZiporaHashMap<K, u64, S> {
     fn insert(&mut self, k: u64, v: u64) -> Result<Option<u64>, String> {
-        ZiporaHashMap::insert(self, k, v).map_err(|e| e.to_string())
+        ZiporaHashMap::insert(self, K::mk(k), v).map_err(|e| e.to_string())
     }
     fn remove(&mut self, k: u64) -> Result<Option<u64>, String> {
-        Ok(ZiporaHashMap::remove(self, &k))
+        Ok(ZiporaHashMap::remove(self, &K::mk(k)))
     }
     fn get(&self, k: u64) -> Option<u64> {
-        ZiporaHashMap::get(self, &k).copied()
+        ZiporaHashMap::get(self, &K::mk(k)).copied()
     }
     fn set_via_get_mut(&mut self, k: u64, v: u64) -> Option<bool> {
-        Some(match ZiporaHashMap::get_mut(self, &k) {
+        Some(match ZiporaHashMap::get_mut(self, &K::mk(k)) {
             Some(slot) => {
                 *slot = v;
                 true
@@ -132,7 +198,7 @@ impl<S: BuildHasher> MapLike for ZiporaHashMap<u64, u64, S> {
         })
     }
     fn contains(&self, k: u64) -> bool {
-        ZiporaHashMap::contains_key(self, &k)
+        ZiporaHashMap::contains_key(self, &K::mk(k))
     }
     fn len(&self) -> usize {
         ZiporaHashMap::len(self)
@@ -142,7 +208,7 @@ impl<S: BuildHasher> MapLike for ZiporaHashMap<u64, u64, S> {
         true
     }
     fn entries(&self) -> Option<Result<Vec<(u64, u64)>, String>> {
-        Some(Ok(self.iter().map(|(k, v)| (*k, *v)).collect()))
+        Some(Ok(self.iter().map(|(k, v)| (k.back(), *v)).collect()))
     }
 }
 
@@ -181,18 +247,62 @@ impl<M: MapLike> MapLike for NoIter<M> {
     }
 }
 
-impl<L: LinkType> MapLike for GoldHashMap<u64, u64, L> {
+/// (coverage audit) GoldHashMap driven through `reserve`, `set_hash_caching` and `iter_with_strategy(Safe)` as well.
+pub struct GoldX<K: ZKey, L: LinkType>(pub GoldHashMap<K, u64, L>);
+impl<K: ZKey, L: LinkType + 'static> MapLike for GoldX<K, L> {
     fn insert(&mut self, k: u64, v: u64) -> Result<Option<u64>, String> {
-        GoldHashMap::insert(self, k, v).map_err(|e| e.to_string())
+        MapLike::insert(&mut self.0, k, v)
     }
     fn remove(&mut self, k: u64) -> Result<Option<u64>, String> {
-        GoldHashMap::remove(self, &k).map_err(|e| e.to_string())
+        MapLike::remove(&mut self.0, k)
     }
     fn get(&self, k: u64) -> Option<u64> {
-        GoldHashMap::get(self, &k).copied()
+        MapLike::get(&self.0, k)
     }
     fn set_via_get_mut(&mut self, k: u64, v: u64) -> Option<bool> {
-        Some(match GoldHashMap::get_mut(self, &k) {
+        self.0.set_via_get_mut(k, v)
+    }
+    fn contains(&self, k: u64) -> bool {
+        MapLike::contains(&self.0, k)
+    }
+    fn len(&self) -> usize {
+        MapLike::len(&self.0)
+    }
+    fn clear(&mut self) -> bool {
+        MapLike::clear(&mut self.0)
+    }
+    fn entries(&self) -> Option<Result<Vec<(u64, u64)>, String>> {
+        // explicitly the Safe strategy (the configured default may be Fast, which is documented to yield deleted entries)
+        Some(Ok(self.0.iter_with_strategy(IterationStrategy::Safe).map(|(k, v)| (k.back(), *v)).collect()))
+    }
+    fn compact(&mut self) -> Option<Result<(), String>> {
+        self.0.compact()
+    }
+    fn maint(&mut self, which: u8) -> Option<Result<(), String>> {
+        match which {
+            1 => Some(self.0.reserve(8).map_err(|e| e.to_string())),
+            2 => {
+                let on = self.0.is_hash_cached();
+                self.0.set_hash_caching(!on);
+                Some(Ok(()))
+            }
+            _ => None,
+        }
+    }
+}
+
+impl<K: ZKey, L: LinkType> MapLike for GoldHashMap<K, u64, L> {
+    fn insert(&mut self, k: u64, v: u64) -> Result<Option<u64>, String> {
+        GoldHashMap::insert(self, K::mk(k), v).map_err(|e| e.to_string())
+    }
+    fn remove(&mut self, k: u64) -> Result<Option<u64>, String> {
+        GoldHashMap::remove(self, &K::mk(k)).map_err(|e| e.to_string())
+    }
+    fn get(&self, k: u64) -> Option<u64> {
+        GoldHashMap::get(self, &K::mk(k)).copied()
+    }
+    fn set_via_get_mut(&mut self, k: u64, v: u64) -> Option<bool> {
+        Some(match GoldHashMap::get_mut(self, &K::mk(k)) {
             Some(slot) => {
                 *slot = v;
                 true
@@ -201,7 +311,7 @@ impl<L: LinkType> MapLike for GoldHashMap<u64, u64, L> {
         })
     }
     fn contains(&self, k: u64) -> bool {
-        GoldHashMap::contains_key(self, &k)
+        GoldHashMap::contains_key(self, &K::mk(k))
     }
     fn len(&self) -> usize {
         GoldHashMap::len(self)
@@ -211,25 +321,25 @@ impl<L: LinkType> MapLike for GoldHashMap<u64, u64, L> {
         true
     }
     fn entries(&self) -> Option<Result<Vec<(u64, u64)>, String>> {
-        Some(Ok(self.iter().map(|(k, v)| (*k, *v)).collect()))
+        Some(Ok(self.iter().map(|(k, v)| (k.back(), *v)).collect()))
     }
     fn compact(&mut self) -> Option<Result<(), String>> {
         Some(self.revoke_deleted().map_err(|e| e.to_string()))
     }
 }
 
-impl MapLike for GoldHashIdx<u64, u64> {
+impl<K: ZKey> MapLike for GoldHashIdx<K, u64> {
     fn insert(&mut self, k: u64, v: u64) -> Result<Option<u64>, String> {
-        GoldHashIdx::insert(self, k, v).map_err(|e| e.to_string())
+        GoldHashIdx::insert(self, K::mk(k), v).map_err(|e| e.to_string())
     }
     fn remove(&mut self, k: u64) -> Result<Option<u64>, String> {
-        Ok(GoldHashIdx::remove(self, &k))
+        Ok(GoldHashIdx::remove(self, &K::mk(k)))
     }
     fn get(&self, k: u64) -> Option<u64> {
-        GoldHashIdx::get(self, &k).copied()
+        GoldHashIdx::get(self, &K::mk(k)).copied()
     }
     fn set_via_get_mut(&mut self, k: u64, v: u64) -> Option<bool> {
-        Some(match GoldHashIdx::get_mut(self, &k) {
+        Some(match GoldHashIdx::get_mut(self, &K::mk(k)) {
             Some(slot) => {
                 *slot = v;
                 true
@@ -238,7 +348,7 @@ impl MapLike for GoldHashIdx<u64, u64> {
         })
     }
     fn contains(&self, k: u64) -> bool {
-        GoldHashIdx::contains_key(self, &k)
+        GoldHashIdx::contains_key(self, &K::mk(k))
     }
     fn len(&self) -> usize {
         GoldHashIdx::len(self)
@@ -251,18 +361,72 @@ impl MapLike for GoldHashIdx<u64, u64> {
     }
 }
 
-impl MapLike for SmallMap<u64, u64> {
+/// (coverage audit) GoldHashIdx with `insert_batch`, `get_batch` and `shrink_to_fit`.
+pub struct IdxX<K: ZKey>(pub GoldHashIdx<K, u64>);
+impl<K: ZKey> MapLike for IdxX<K> {
     fn insert(&mut self, k: u64, v: u64) -> Result<Option<u64>, String> {
-        SmallMap::insert(self, k, v).map_err(|e| e.to_string())
+        MapLike::insert(&mut self.0, k, v)
     }
     fn remove(&mut self, k: u64) -> Result<Option<u64>, String> {
-        Ok(SmallMap::remove(self, &k))
+        MapLike::remove(&mut self.0, k)
     }
     fn get(&self, k: u64) -> Option<u64> {
-        SmallMap::get(self, &k).copied()
+        MapLike::get(&self.0, k)
     }
     fn set_via_get_mut(&mut self, k: u64, v: u64) -> Option<bool> {
-        Some(match SmallMap::get_mut(self, &k) {
+        self.0.set_via_get_mut(k, v)
+    }
+    fn contains(&self, k: u64) -> bool {
+        MapLike::contains(&self.0, k)
+    }
+    fn len(&self) -> usize {
+        MapLike::len(&self.0)
+    }
+    fn clear(&mut self) -> bool {
+        false
+    }
+    fn entries(&self) -> Option<Result<Vec<(u64, u64)>, String>> {
+        None
+    }
+    fn insert2(&mut self, k: u64, v: u64) -> Option<Result<(), String>> {
+        // the key twice in one batch (the second one is a replacement) plus the pre-sizing step of insert_batch
+        Some(self.0.insert_batch(vec![(K::mk(k), v ^ 0xFFFF), (K::mk(k), v)]).map_err(|e| e.to_string()))
+    }
+    fn get2(&self, k: u64) -> Option<Result<Option<u64>, String>> {
+        let r = self.0.get_batch(&[K::mk(k), K::mk(k)]);
+        Some(if r.len() == 2 && r[0] == r[1] { Ok(r[0].copied()) } else { Err(format!("get_batch([k,k]) returned {:?}", r)) })
+    }
+    fn maint(&mut self, which: u8) -> Option<Result<(), String>> {
+        if which == 0 {
+            self.0.shrink_to_fit();
+            Some(Ok(()))
+        } else {
+            None
+        }
+    }
+}
+
+/// (coverage audit) `SmallMap<u8, V>`: the only key type with a specialised (SIMD) lookup, `get_fast`.
+pub struct SmallU8(pub SmallMap<u8, u64>);
+fn u8_key(k: u64) -> u8 {
+    if k == ABSENT_KEY {
+        0xFE
+    } else {
+        k as u8
+    }
+}
+impl MapLike for SmallU8 {
+    fn insert(&mut self, k: u64, v: u64) -> Result<Option<u64>, String> {
+        self.0.insert(u8_key(k), v).map_err(|e| e.to_string())
+    }
+    fn remove(&mut self, k: u64) -> Result<Option<u64>, String> {
+        Ok(self.0.remove(&u8_key(k)))
+    }
+    fn get(&self, k: u64) -> Option<u64> {
+        self.0.get(&u8_key(k)).copied()
+    }
+    fn set_via_get_mut(&mut self, k: u64, v: u64) -> Option<bool> {
+        Some(match self.0.get_mut(&u8_key(k)) {
             Some(slot) => {
                 *slot = v;
                 true
@@ -271,7 +435,246 @@ impl MapLike for SmallMap<u64, u64> {
         })
     }
     fn contains(&self, k: u64) -> bool {
-        SmallMap::contains_key(self, &k)
+        self.0.contains_key(&u8_key(k))
+    }
+    fn len(&self) -> usize {
+        self.0.len()
+    }
+    fn clear(&mut self) -> bool {
+        self.0.clear();
+        true
+    }
+    fn entries(&self) -> Option<Result<Vec<(u64, u64)>, String>> {
+        Some(Ok(self.0.iter().map(|(k, v)| (*k as u64, *v)).collect()))
+    }
+    fn get2(&self, k: u64) -> Option<Result<Option<u64>, String>> {
+        Some(zverif::util::catch(|| self.0.get_fast(&u8_key(k)).copied()).map_err(|f| format!("panicked: {}", f.detail)))
+    }
+    fn clone_box(&self) -> Option<Box<dyn MapLike>> {
+        Some(Box::new(SmallU8(self.0.clone())))
+    }
+}
+
+/// (coverage audit) SmallMap<u64,u64> with `Clone` offered (clone of the inline and of the promoted representation).
+pub struct SmallClone<K: ZKey>(pub SmallMap<K, u64>);
+impl<K: ZKey> MapLike for SmallClone<K> {
+    fn insert(&mut self, k: u64, v: u64) -> Result<Option<u64>, String> {
+        MapLike::insert(&mut self.0, k, v)
+    }
+    fn remove(&mut self, k: u64) -> Result<Option<u64>, String> {
+        MapLike::remove(&mut self.0, k)
+    }
+    fn get(&self, k: u64) -> Option<u64> {
+        MapLike::get(&self.0, k)
+    }
+    fn set_via_get_mut(&mut self, k: u64, v: u64) -> Option<bool> {
+        self.0.set_via_get_mut(k, v)
+    }
+    fn contains(&self, k: u64) -> bool {
+        MapLike::contains(&self.0, k)
+    }
+    fn len(&self) -> usize {
+        MapLike::len(&self.0)
+    }
+    fn clear(&mut self) -> bool {
+        MapLike::clear(&mut self.0)
+    }
+    fn entries(&self) -> Option<Result<Vec<(u64, u64)>, String>> {
+        self.0.entries()
+    }
+    fn clone_box(&self) -> Option<Box<dyn MapLike>> {
+        Some(Box::new(SmallClone(self.0.clone())))
+    }
+}
+
+/// (coverage audit) EasyHashMap with its further entry points: `extend`, `get_or_insert`, `retain`, `shrink_to_fit`,
+/// `reserve`, `get_or_default` (the map is built with default value `u64::MAX`).
+pub struct EasyX<K: ZKey>(pub EasyHashMap<K, u64>);
+impl<K: ZKey> MapLike for EasyX<K> {
+    fn insert(&mut self, k: u64, v: u64) -> Result<Option<u64>, String> {
+        MapLike::insert(&mut self.0, k, v)
+    }
+    fn remove(&mut self, k: u64) -> Result<Option<u64>, String> {
+        MapLike::remove(&mut self.0, k)
+    }
+    fn get(&self, k: u64) -> Option<u64> {
+        MapLike::get(&self.0, k)
+    }
+    fn set_via_get_mut(&mut self, _k: u64, _v: u64) -> Option<bool> {
+        None
+    }
+    fn contains(&self, k: u64) -> bool {
+        MapLike::contains(&self.0, k)
+    }
+    fn len(&self) -> usize {
+        MapLike::len(&self.0)
+    }
+    fn clear(&mut self) -> bool {
+        MapLike::clear(&mut self.0)
+    }
+    fn entries(&self) -> Option<Result<Vec<(u64, u64)>, String>> {
+        None
+    }
+    fn insert_reports_previous(&self) -> bool {
+        false
+    }
+    fn insert2(&mut self, k: u64, v: u64) -> Option<Result<(), String>> {
+        self.0.extend(vec![(K::mk(k), v ^ 0xFFFF), (K::mk(k), v)]);
+        Some(Ok(()))
+    }
+    fn get_or_insert(&mut self, k: u64, v: u64) -> Option<Result<u64, String>> {
+        Some(self.0.get_or_insert(K::mk(k), v).map(|r| *r).map_err(|e| e.to_string()))
+    }
+    fn retain_not(&mut self, k: u64) -> bool {
+        self.0.retain(|key, _| key.back() != k);
+        true
+    }
+    fn maint(&mut self, which: u8) -> Option<Result<(), String>> {
+        match which {
+            0 => {
+                self.0.shrink_to_fit();
+                Some(Ok(()))
+            }
+            1 => {
+                self.0.reserve(8);
+                Some(Ok(()))
+            }
+            _ => None,
+        }
+    }
+    fn get2(&self, k: u64) -> Option<Result<Option<u64>, String>> {
+        Some(zverif::util::catch(|| *self.0.get_or_default(&K::mk(k))).map(|v| if v == u64::MAX { None } else { Some(v) }).map_err(|f| format!("panicked: {}", f.detail)))
+    }
+}
+
+/// (coverage audit) ZiporaHashMap with `String` keys and borrowed `&str` lookups (`K: Borrow<Q>`).
+pub struct ZStr<S: BuildHasher>(pub ZiporaHashMap<String, u64, S>);
+impl<S: BuildHasher> MapLike for ZStr<S> {
+    fn insert(&mut self, k: u64, v: u64) -> Result<Option<u64>, String> {
+        self.0.insert(str_key(k), v).map_err(|e| e.to_string())
+    }
+    fn remove(&mut self, k: u64) -> Result<Option<u64>, String> {
+        Ok(self.0.remove::<str>(str_key(k).as_str()))
+    }
+    fn get(&self, k: u64) -> Option<u64> {
+        self.0.get::<str>(str_key(k).as_str()).copied()
+    }
+    fn set_via_get_mut(&mut self, k: u64, v: u64) -> Option<bool> {
+        Some(match self.0.get_mut::<str>(str_key(k).as_str()) {
+            Some(slot) => {
+                *slot = v;
+                true
+            }
+            None => false,
+        })
+    }
+    fn contains(&self, k: u64) -> bool {
+        self.0.contains_key::<str>(str_key(k).as_str())
+    }
+    fn len(&self) -> usize {
+        self.0.len()
+    }
+    fn clear(&mut self) -> bool {
+        self.0.clear();
+        true
+    }
+    fn entries(&self) -> Option<Result<Vec<(u64, u64)>, String>> {
+        let mut out = Vec::new();
+        for (s, v) in self.0.iter() {
+            let k = (0..64u64).find(|k| &str_key(*k) == s).unwrap_or(u64::MAX);
+            out.push((k, *v));
+        }
+        Some(Ok(out))
+    }
+    fn get2(&self, k: u64) -> Option<Result<Option<u64>, String>> {
+        // the owned-key lookup must agree with the borrowed one
+        Some(Ok(self.0.get(&str_key(k)).copied()))
+    }
+}
+
+/// (coverage audit) HashStrMap through its by-value / FastStr entry points.  Keys 5 and 6 are byte strings that are
+/// not UTF-8 (a FastStr is a byte string); `remove`/`get_mut` exist for `&str` only and are refused for those.
+pub struct StrX(pub HashStrMap<u64>);
+fn bytes_key(k: u64) -> Vec<u8> {
+    match k {
+        5 => vec![0xff],
+        6 => vec![0xfe],
+        _ => str_key(k).into_bytes(),
+    }
+}
+impl MapLike for StrX {
+    fn insert(&mut self, k: u64, v: u64) -> Result<Option<u64>, String> {
+        let b = bytes_key(k);
+        self.0.insert_fast_str(FastStr::new(&b), v).map_err(|e| e.to_string())
+    }
+    fn remove(&mut self, k: u64) -> Result<Option<u64>, String> {
+        match String::from_utf8(bytes_key(k)) {
+            Ok(s) => Ok(self.0.remove(&s)),
+            Err(_) => Err("remove takes &str".into()),
+        }
+    }
+    fn get(&self, k: u64) -> Option<u64> {
+        let b = bytes_key(k);
+        self.0.get_by_fast_str(&FastStr::new(&b)).copied()
+    }
+    fn set_via_get_mut(&mut self, _k: u64, _v: u64) -> Option<bool> {
+        None
+    }
+    fn contains(&self, k: u64) -> bool {
+        self.get(k).is_some()
+    }
+    fn len(&self) -> usize {
+        self.0.len()
+    }
+    fn clear(&mut self) -> bool {
+        self.0.clear_all();
+        true
+    }
+    fn entries(&self) -> Option<Result<Vec<(u64, u64)>, String>> {
+        let mut out = Vec::new();
+        for (s, v) in self.0.iter() {
+            let k = (0..64u64).find(|k| bytes_key(*k) == s.as_bytes()).unwrap_or(u64::MAX);
+            out.push((k, *v));
+        }
+        Some(Ok(out))
+    }
+    fn insert2(&mut self, k: u64, v: u64) -> Option<Result<(), String>> {
+        match String::from_utf8(bytes_key(k)) {
+            Ok(s) => Some(self.0.insert_string(s, v).map(|_| ()).map_err(|e| e.to_string())),
+            Err(_) => Some(Err("insert_string takes a String".into())),
+        }
+    }
+    fn maint(&mut self, which: u8) -> Option<Result<(), String>> {
+        if which == 0 {
+            self.0.shrink_to_fit();
+            Some(Ok(()))
+        } else {
+            None
+        }
+    }
+}
+
+impl<K: ZKey> MapLike for SmallMap<K, u64> {
+    fn insert(&mut self, k: u64, v: u64) -> Result<Option<u64>, String> {
+        SmallMap::insert(self, K::mk(k), v).map_err(|e| e.to_string())
+    }
+    fn remove(&mut self, k: u64) -> Result<Option<u64>, String> {
+        Ok(SmallMap::remove(self, &K::mk(k)))
+    }
+    fn get(&self, k: u64) -> Option<u64> {
+        SmallMap::get(self, &K::mk(k)).copied()
+    }
+    fn set_via_get_mut(&mut self, k: u64, v: u64) -> Option<bool> {
+        Some(match SmallMap::get_mut(self, &K::mk(k)) {
+            Some(slot) => {
+                *slot = v;
+                true
+            }
+            None => false,
+        })
+    }
+    fn contains(&self, k: u64) -> bool {
+        SmallMap::contains_key(self, &K::mk(k))
     }
     fn len(&self) -> usize {
         SmallMap::len(self)
@@ -281,27 +684,27 @@ impl MapLike for SmallMap<u64, u64> {
         true
     }
     fn entries(&self) -> Option<Result<Vec<(u64, u64)>, String>> {
-        Some(zverif::util::catch(|| self.iter().map(|(k, v)| (*k, *v)).collect::<Vec<_>>()).map_err(|f| f.detail))
+        Some(zverif::util::catch(|| self.iter().map(|(k, v)| (k.back(), *v)).collect::<Vec<_>>()).map_err(|f| f.detail))
     }
 }
 
-impl MapLike for EasyHashMap<u64, u64> {
+impl<K: ZKey> MapLike for EasyHashMap<K, u64> {
     fn insert(&mut self, k: u64, v: u64) -> Result<Option<u64>, String> {
-        self.put(k, v);
+        self.put(K::mk(k), v);
         Ok(None)
     }
     fn remove(&mut self, k: u64) -> Result<Option<u64>, String> {
-        Ok(EasyHashMap::remove(self, &k))
+        Ok(EasyHashMap::remove(self, &K::mk(k)))
     }
     fn get(&self, k: u64) -> Option<u64> {
-        EasyHashMap::get(self, &k).copied()
+        EasyHashMap::get(self, &K::mk(k)).copied()
     }
     fn set_via_get_mut(&mut self, _k: u64, _v: u64) -> Option<bool> {
         // EasyHashMap has no plain get_mut (only get_or_insert*, which is an insertion)
         None
     }
     fn contains(&self, k: u64) -> bool {
-        EasyHashMap::contains_key(self, &k)
+        EasyHashMap::contains_key(self, &K::mk(k))
     }
     fn len(&self) -> usize {
         EasyHashMap::len(self)
@@ -380,6 +783,14 @@ pub enum Op {
     SetMut(u64),
     Clear,
     Compact,
+    // ---- coverage audit (appended)
+    Insert2(u64),
+    GetOrInsert(u64),
+    RetainNot(u64),
+    Shrink,
+    Reserve,
+    ToggleCache,
+    CloneSwap,
 }
 
 impl std::fmt::Debug for Op {
@@ -390,6 +801,13 @@ impl std::fmt::Debug for Op {
             Op::SetMut(k) => write!(f, "SetMut({k})"),
             Op::Clear => write!(f, "Clear"),
             Op::Compact => write!(f, "Compact"),
+            Op::Insert2(k) => write!(f, "Insert2({k})"),
+            Op::GetOrInsert(k) => write!(f, "GetOrInsert({k})"),
+            Op::RetainNot(k) => write!(f, "RetainNot({k})"),
+            Op::Shrink => write!(f, "Shrink"),
+            Op::Reserve => write!(f, "Reserve"),
+            Op::ToggleCache => write!(f, "ToggleCache"),
+            Op::CloneSwap => write!(f, "CloneSwap"),
         }
     }
 }
@@ -421,6 +839,21 @@ pub struct MapSpec {
     /// of that one step (duplicate entry behind a tombstone) depends on the per-process seed
     pub random_hasher_guard: bool,
     pub note: &'static str,
+    /// (coverage audit) additional mutators, each where the adapter offers it
+    pub extra: Extra,
+    /// (coverage audit) scripted operations applied after the prefill (start state with tombstones, after clear, ...)
+    pub script: Vec<Op>,
+}
+
+#[derive(Clone, Copy, Default)]
+pub struct Extra {
+    pub insert2: bool,
+    pub get_or_insert: bool,
+    pub retain: bool,
+    pub shrink: bool,
+    pub reserve: bool,
+    pub toggle: bool,
+    pub clone: bool,
 }
 
 const ABSENT_KEY: u64 = 0xDEAD_0000_0000_0001;
@@ -449,12 +882,35 @@ impl SeqSpec for MapSpec {
         if self.with_compact {
             muts.push("revoke_deleted");
         }
+        if self.extra.insert2 {
+            muts.push("second insertion entry point (insert_batch / extend / insert_string)(k,fresh v)");
+        }
+        if self.extra.get_or_insert {
+            muts.push("get_or_insert(k,fresh v)");
+        }
+        if self.extra.retain {
+            muts.push("retain(key != k)");
+        }
+        if self.extra.shrink {
+            muts.push("shrink_to_fit");
+        }
+        if self.extra.reserve {
+            muts.push("reserve(8)");
+        }
+        if self.extra.toggle {
+            muts.push("set_hash_caching(!is_hash_cached())");
+        }
+        if self.extra.clone {
+            muts.push("m = m.clone()");
+        }
+        let script = if self.script.is_empty() { String::new() } else { format!(" and the scripted operations {:?}", self.script) };
         format!(
-            "all histories of <= {} mutators from {{{}}} over keys {:?}, after a scripted prefill of {} keys; observers after every step: get/contains_key on every key + prefill keys + 1 absent key, len, iter() as sorted multiset (where offered){}{}",
+            "all histories of <= {} mutators from {{{}}} over keys {:?}, after a scripted prefill of {} keys{}; observers after every step: get/contains_key (and the second lookup entry point where offered) on every key + prefill keys + 1 absent key, len, iter() as sorted multiset (where offered){}{}",
             self.depth(tier),
             muts.join(", "),
             self.keys,
             self.prefill.len(),
+            script,
             if self.random_hasher_guard { "; insert of a present key is disabled after a successful remove (seed-dependent step)" } else { "" },
             if self.note.is_empty() { String::new() } else { format!("; {}", self.note) }
         )
@@ -469,7 +925,11 @@ impl SeqSpec for MapSpec {
                 check!(r == m, "insert_return", "prefill insert({k}) returned {:?}, model {:?}", r, m);
             }
         }
-        Ok(St { map, model, steps: 0, removed: false })
+        let mut st = St { map, model, steps: 0, removed: false };
+        for op in &self.script {
+            self.apply(&mut st, op)?;
+        }
+        Ok(st)
     }
     fn ops(&self, st: &St) -> Vec<Op> {
         let mut v = Vec::new();
@@ -494,6 +954,33 @@ impl SeqSpec for MapSpec {
         }
         if self.with_compact {
             v.push(Op::Compact);
+        }
+        if self.extra.insert2 {
+            for &k in &self.keys {
+                v.push(Op::Insert2(k));
+            }
+        }
+        if self.extra.get_or_insert {
+            for &k in &self.keys {
+                v.push(Op::GetOrInsert(k));
+            }
+        }
+        if self.extra.retain {
+            for &k in &self.keys {
+                v.push(Op::RetainNot(k));
+            }
+        }
+        if self.extra.shrink {
+            v.push(Op::Shrink);
+        }
+        if self.extra.reserve {
+            v.push(Op::Reserve);
+        }
+        if self.extra.toggle {
+            v.push(Op::ToggleCache);
+        }
+        if self.extra.clone {
+            v.push(Op::CloneSwap);
         }
         v
     }
@@ -536,6 +1023,43 @@ impl SeqSpec for MapSpec {
                 // must not change the abstract map; an Err is a refusal
                 let _ = st.map.compact();
             }
+            Op::Insert2(k) => {
+                if let Some(Ok(())) = st.map.insert2(k, v) {
+                    st.model.insert(k, v);
+                }
+            }
+            Op::GetOrInsert(k) => {
+                if let Some(r) = st.map.get_or_insert(k, v) {
+                    match r {
+                        Ok(got) => {
+                            let want = *st.model.entry(k).or_insert(v);
+                            check!(got == want, "get_or_insert", "*get_or_insert({k},{v}) = {got}, model says {want}");
+                        }
+                        Err(_e) => {}
+                    }
+                }
+            }
+            Op::RetainNot(k) => {
+                if st.map.retain_not(k) {
+                    if st.model.remove(&k).is_some() {
+                        st.removed = true;
+                    }
+                }
+            }
+            Op::Shrink => {
+                let _ = st.map.maint(0);
+            }
+            Op::Reserve => {
+                let _ = st.map.maint(1);
+            }
+            Op::ToggleCache => {
+                let _ = st.map.maint(2);
+            }
+            Op::CloneSwap => {
+                if let Some(c) = st.map.clone_box() {
+                    st.map = c;
+                }
+            }
         }
         Ok(())
     }
@@ -554,6 +1078,12 @@ impl SeqSpec for MapSpec {
             check!(g == m, "get", "get({k}) = {:?}, model says {:?}", g, m);
             let c = st.map.contains(k);
             check!(c == m.is_some(), "contains_key", "contains_key({k}) = {c}, model says {}", m.is_some());
+            if let Some(r) = st.map.get2(k) {
+                match r {
+                    Ok(g2) => check!(g2 == m, "get", "second lookup entry point ({k}) = {:?}, model says {:?}", g2, m),
+                    Err(msg) => return Err(Fail::new("get", format!("second lookup entry point ({k}) {msg}, model says {:?}", m))),
+                }
+            }
         }
         let l = st.map.len();
         check!(l == st.model.len(), "len", "len() = {l}, model says {}", st.model.len());
@@ -595,6 +1125,8 @@ fn spec(label: &str, make: Box<dyn Fn() -> Result<Box<dyn MapLike>, String>>, p:
         with_setmut: true,
         random_hasher_guard: false,
         note: "",
+        extra: Extra::default(),
+        script: Vec::new(),
     }
 }
 
@@ -785,5 +1317,288 @@ fn main() {
         // ---- HashStrMap (std HashMap<String, V> inside)
         reg.add(Seq(spec("HashStrMap/new", Box::new(|| Ok(Box::new(HashStrMap::<u64>::new()) as Box<dyn MapLike>)), p(&[0, 1, 2, 3, 4], vec![], 3, 4))));
         reg.add(Seq(spec("HashStrMap/prefill30", Box::new(|| Ok(Box::new(HashStrMap::<u64>::with_capacity(1)) as Box<dyn MapLike>)), p(&[0, 1, 10], (10..40).collect(), 3, 4))));
+
+        // =====================================================================================
+        // coverage audit (notes/C06.md "## Coverage audit"): new subjects only, appended; the subjects above are unchanged.
+        const AUDIT: &str = "coverage audit";
+        let audit = |mut s: MapSpec, f: &dyn Fn(&mut MapSpec)| -> Seq<MapSpec> {
+            s.note = AUDIT;
+            f(&mut s);
+            Seq(s)
+        };
+
+        // ---- (1) ZiporaHashMap Standard storage: the resize (16 -> 32 slots, taken when all 16 slots are live) INSIDE the explored
+        //          alphabet with the full oracle, also with every key on one probe run; non-power-of-two capacities
+        //          (`with_capacity(n)` / EasyHashMap::shrink_to_fit build `mask = n - 1`, i.e. only a subset of the slots is addressable)
+        let zs = |label: &str, make: Box<dyn Fn() -> Result<Box<dyn MapLike>, String>>, p: P| spec(label, make, p);
+        reg.add(audit(zipora_spec("ZiporaHashMap[default]/FixedSip/prefill15", dflt, FixedSip, false, p(k3, (10..25).collect(), 4, 5)).0, &|_| {}));
+        reg.add(audit(zipora_spec("ZiporaHashMap[default]/Const(7)/prefill15", dflt, ConstBuild(7), false, p(k3, (10..25).collect(), 4, 5)).0, &|_| {}));
+        reg.add(audit(zipora_spec("ZiporaHashMap[default]/Identity/prefill15", dflt, TableBuild(vec![]), false, p(&[0, 16, 32], (1..16).collect(), 4, 5)).0, &|_| {}));
+        // tombstones already present when the exhaustive part starts (prefill 15, then three removals)
+        reg.add(audit(zipora_spec("ZiporaHashMap[default]/FixedSip/prefill15-3", dflt, FixedSip, false, p(&[0, 1, 10, 11], (10..25).collect(), 3, 4)).0, &|s| {
+            s.script = vec![Op::Remove(10), Op::Remove(17), Op::Remove(24)]
+        }));
+        reg.add(audit(
+            zs(
+                "ZiporaHashMap::with_capacity(20)/FixedSip/prefill6",
+                Box::new(|| ZiporaHashMap::<u64, u64, FixedSip>::with_capacity(20).map(|m| Box::new(m) as Box<dyn MapLike>).map_err(|e| e.to_string())),
+                p(k3, (10..16).collect(), 4, 5),
+            ),
+            &|_| {},
+        ));
+        reg.add(audit(
+            zs(
+                "ZiporaHashMap::with_capacity(17)/Identity",
+                Box::new(|| ZiporaHashMap::<u64, u64, TableBuild>::with_capacity(17).map(|m| Box::new(m) as Box<dyn MapLike>).map_err(|e| e.to_string())),
+                p(&[0, 1, 16, 17], vec![], 4, 5),
+            ),
+            &|_| {},
+        ));
+        reg.add(audit(
+            zs(
+                "ZiporaHashMap::with_capacity(100)/FixedSip/prefill30",
+                Box::new(|| ZiporaHashMap::<u64, u64, FixedSip>::with_capacity(100).map(|m| Box::new(m) as Box<dyn MapLike>).map_err(|e| e.to_string())),
+                p(k3, (10..40).collect(), 3, 4),
+            ),
+            &|_| {},
+        ));
+        // String keys, borrowed &str lookups
+        reg.add(audit(
+            zs(
+                "ZiporaHashMap<String,u64>[default]/FixedSip",
+                Box::new(|| {
+                    ZiporaHashMap::<String, u64, FixedSip>::with_config_and_hasher(ZiporaHashMapConfig::default(), FixedSip)
+                        .map(|m| Box::new(ZStr(m)) as Box<dyn MapLike>)
+                        .map_err(|e| e.to_string())
+                }),
+                p(&[0, 1, 2, 3, 4], vec![], 3, 4),
+            ),
+            &|_| {},
+        ));
+        reg.add(audit(
+            zs(
+                "ZiporaHashMap<String,u64>[default]/Const(7)",
+                Box::new(|| {
+                    ZiporaHashMap::<String, u64, ConstBuild>::with_config_and_hasher(ZiporaHashMapConfig::default(), ConstBuild(7))
+                        .map(|m| Box::new(ZStr(m)) as Box<dyn MapLike>)
+                        .map_err(|e| e.to_string())
+                }),
+                p(&[0, 1, 2, 3], vec![], 3, 4),
+            ),
+            &|_| {},
+        ));
+
+        // ---- (2) SmallMap<u8, V>: the SIMD lookup `get_fast` is used for 5..=8 inline entries; key 0 is what the padding lanes hold
+        let small_u8 = |label: &str, p: P| spec(label, Box::new(|| Ok(Box::new(SmallU8(SmallMap::<u8, u64>::new())) as Box<dyn MapLike>)), p);
+        reg.add(audit(small_u8("SmallMap<u8,u64>/get_fast/new", p(&[0, 1, 2, 255], vec![], 4, 5)), &|s| s.extra.clone = true));
+        // key 0 present in the start state (8 entries incl. key 0 after two more inserts; 9 = promoted)
+        reg.add(audit(small_u8("SmallMap<u8,u64>/get_fast/prefill[0,10..15]", p(&[0, 1, 2], vec![0, 10, 11, 12, 13, 14], 4, 5)), &|_| {}));
+        // the same without key 0 in the alphabet at all: 4..=8 entries, get_fast of present keys, of an absent non-zero key
+        reg.add(audit(small_u8("SmallMap<u8,u64>/get_fast/nonzero-keys", p(&[1, 2, 128, 255], vec![10, 11, 12, 13], 4, 5)), &|_| {}));
+        let small_clone = |label: &str, p: P| spec(label, Box::new(|| Ok(Box::new(SmallClone(SmallMap::<u64, u64>::new())) as Box<dyn MapLike>)), p);
+        reg.add(audit(small_clone("SmallMap/prefill7+clone", p(k2, (10..17).collect(), 4, 5)), &|s| s.extra.clone = true));
+
+        // ---- (3) EasyHashMap: the fragment that was excluded while ZiporaHashMap duplicated keys behind tombstones (repaired since):
+        //          put of a present key after a removal, growth with tombstones present; and the remaining entry points
+        let easy_x = |label: &str, make: Box<dyn Fn() -> Result<Box<dyn MapLike>, String>>, p: P| {
+            let mut s = spec(label, make, p);
+            s.with_setmut = false;
+            s.extra.insert2 = true;
+            s.extra.get_or_insert = true;
+            s.extra.retain = true;
+            s
+        };
+        let easy_default: fn() -> Result<Box<dyn MapLike>, String> = || Ok(Box::new(EasyX(EasyHashMap::<u64, u64>::with_default(u64::MAX))) as Box<dyn MapLike>);
+        reg.add(audit(easy_x("EasyHashMap[with_default]/all-entry-points", Box::new(easy_default), p(k2, vec![], 4, 5)), &|_| {}));
+        reg.add(audit(easy_x("EasyHashMap[with_default]/all-entry-points/prefill11", Box::new(easy_default), p(&[0, 10], (10..21).collect(), 3, 4)), &|s| {
+            s.extra.shrink = true;
+            s.extra.reserve = true;
+        }));
+        // grown to 64 slots by the prefill; shrink_to_fit then rebuilds with capacity 2*len (not a power of two)
+        reg.add(audit(easy_x("EasyHashMap[with_default]/prefill13+shrink", Box::new(easy_default), p(&[0, 10], (10..23).collect(), 3, 4)), &|s| {
+            s.extra.shrink = true;
+            s.extra.get_or_insert = false;
+            s.extra.insert2 = false;
+        }));
+        reg.add(audit(
+            easy_x(
+                "EasyHashMap[builder,max_load_factor=0.1]",
+                Box::new(|| Ok(Box::new(EasyX(EasyHashMap::<u64, u64>::with_default_value(u64::MAX).max_load_factor(0.1).build())) as Box<dyn MapLike>)),
+                p(k3, vec![], 3, 4),
+            ),
+            &|s| {
+                s.extra.insert2 = false;
+                s.extra.retain = false;
+            },
+        ));
+
+        // ---- (4) GoldHashMap: reserve / set_hash_caching as mutators; presets with keys that really share a bucket of THEIR table
+        //          (the g4 keys collide modulo 5 only); default config, large(); extreme load factors; explicit Safe iteration
+        let gold_x = |label: &str, cfg: fn() -> GoldHashMapConfig, p: P| {
+            let mut s = spec(label, Box::new(move || Ok(Box::new(GoldX(GoldHashMap::<u64, u64, u32>::with_config(cfg()))) as Box<dyn MapLike>)), p);
+            s.with_compact = true;
+            s
+        };
+        // two keys, one step deeper: insert, insert, remove, toggle, then a relink (compact / reserve / growth) is the shortest history
+        // in which a cache built by set_hash_caching(true) over a table with a deleted slot is actually read
+        reg.add(audit(gold_x("GoldHashMap[u32,cap5]/reserve+toggle_cache", || gold_cfg(1, false, false, true), p(&g3[..2], vec![], 5, 6)), &|s| {
+            s.extra.reserve = true;
+            s.extra.toggle = true;
+        }));
+        reg.add(audit(gold_x("GoldHashMap[u32,cap5,auto_gc,hash_cache]/spread/reserve+toggle_cache", || gold_cfg(1, true, true, true), p(&s4[..3], vec![], 4, 5)), &|s| {
+            s.extra.reserve = true;
+            s.extra.toggle = true;
+        }));
+        let c23 = gold_colliding(0, 23, 0, 4);
+        let c97 = gold_colliding(0, 97, 0, 4);
+        let c1741 = gold_colliding(0, 1741, 0, 3);
+        reg.add(audit(gold_x("GoldHashMap[small()]/collide23", GoldHashMapConfig::small, p(&c23, vec![], 4, 5)), &|_| {}));
+        reg.add(audit(gold_x("GoldHashMap[default()]/collide23", GoldHashMapConfig::default, p(&c23, vec![], 4, 5)), &|_| {}));
+        reg.add(audit(gold_x("GoldHashMap[high_churn()]/collide97", GoldHashMapConfig::high_churn, p(&c97, vec![], 4, 5)), &|_| {}));
+        reg.add(audit(gold_x("GoldHashMap[large()]/collide1741", GoldHashMapConfig::large, p(&c1741, vec![], 3, 4)), &|_| {}));
+        reg.add(audit(
+            gold_x(
+                "GoldHashMap[u32,cap5,load=0.1]",
+                || {
+                    let mut c = gold_cfg(1, true, false, true);
+                    c.load_factor = 0.1;
+                    c
+                },
+                p(&g4, vec![], 4, 5),
+            ),
+            &|_| {},
+        ));
+        reg.add(audit(
+            gold_x(
+                "GoldHashMap[u32,cap5,load=0.999]",
+                || {
+                    let mut c = gold_cfg(1, true, false, true);
+                    c.load_factor = 0.999;
+                    c
+                },
+                p(&g4, vec![], 4, 5),
+            ),
+            &|_| {},
+        ));
+        reg.add(audit(
+            gold_x(
+                "GoldHashMap[u32,cap5,default_iter=Fast]/iter_with_strategy(Safe)",
+                || {
+                    let mut c = gold_cfg(1, false, false, true);
+                    c.default_iteration_strategy = IterationStrategy::Fast;
+                    c
+                },
+                p(&g3, vec![], 4, 5),
+            ),
+            &|_| {},
+        ));
+        // 23 -> 47 buckets at the 17th key
+        reg.add(audit(gold_x("GoldHashMap[small()]/prefill15", GoldHashMapConfig::small, p(&c23[..3], (100..115).collect(), 3, 4)), &|_| {}));
+
+        // ---- (5) GoldHashIdx: insert_batch (pre-sizing resize_to + duplicate key in one batch), get_batch, shrink_to_fit, with_capacity
+        let idx_x = |label: &str, make: Box<dyn Fn() -> Result<Box<dyn MapLike>, String>>, p: P| {
+            let mut s = spec(label, make, p);
+            s.with_clear = false;
+            s.extra.insert2 = true;
+            s.extra.shrink = true;
+            s
+        };
+        reg.add(audit(idx_x("GoldHashIdx/new/batch+shrink", Box::new(|| Ok(Box::new(IdxX(GoldHashIdx::<u64, u64>::new())) as Box<dyn MapLike>)), p(k3, vec![], 4, 5)), &|_| {}));
+        // 13 keys: the table has grown to 32 slots; after one removal shrink_to_fit goes back to 16
+        reg.add(audit(idx_x("GoldHashIdx/prefill13/batch+shrink", Box::new(|| Ok(Box::new(IdxX(GoldHashIdx::<u64, u64>::new())) as Box<dyn MapLike>)), p(&[0, 10, 11], (10..23).collect(), 3, 4)), &|_| {}));
+        reg.add(audit(idx_x("GoldHashIdx::with_capacity(100)/prefill13/batch+shrink", Box::new(|| Ok(Box::new(IdxX(GoldHashIdx::<u64, u64>::with_capacity(100))) as Box<dyn MapLike>)), p(&[0, 10], (10..23).collect(), 3, 4)), &|_| {}));
+
+        // ---- (6) HashStrMap: insert_string / insert_fast_str / get_by_fast_str / clear_all / shrink_to_fit
+        reg.add(audit(spec("HashStrMap/fast_str+insert_string", Box::new(|| Ok(Box::new(StrX(HashStrMap::<u64>::new())) as Box<dyn MapLike>)), p(&[0, 1, 2, 4], vec![], 3, 4)), &|s| {
+            s.with_setmut = false;
+            s.extra.insert2 = true;
+            s.extra.shrink = true;
+        }));
+        reg.add(audit(spec("HashStrMap/fast_str/non-utf8-keys", Box::new(|| Ok(Box::new(StrX(HashStrMap::<u64>::new())) as Box<dyn MapLike>)), p(&[1, 5, 6], vec![], 3, 4)), &|s| {
+            s.with_setmut = false;
+        }));
+
+        // ---- (7) groups of DISTINCT keys with the IDENTICAL full 64-bit hash (key type GK: Hash feeds only k / 10), plus keys in
+        //          other groups, for every map that stores / compares a cached hash next to the key.  Keys 0,1,2 = group 0,
+        //          10,11 = group 1, 20 = group 2.  Colliding modulo the capacity (the alphabets above) never makes
+        //          `stored_hash == hash` true for a different key; here it is true for every pair of one group.
+        let grp4: &[u64] = &[0, 1, 2, 10];
+        let grp5: &[u64] = &[0, 1, 10, 11, 20];
+        let gpre7: Vec<u64> = vec![30, 31, 40, 41, 50, 60, 70]; // prefill: two more groups of two + singles
+        // GoldHashIdx (AHasher::default(): fixed hasher, hence the key type)
+        let idx_g = |label: &str, make: Box<dyn Fn() -> Result<Box<dyn MapLike>, String>>, p: P| {
+            let mut s = spec(label, make, p);
+            s.with_clear = false;
+            s
+        };
+        reg.add(audit(idx_g("GoldHashIdx<GK>/equal-hash-groups", Box::new(|| Ok(Box::new(GoldHashIdx::<GK, u64>::new()) as Box<dyn MapLike>)), p(grp4, vec![], 4, 5)), &|_| {}));
+        reg.add(audit(idx_g("GoldHashIdx<GK>/equal-hash-groups/5keys", Box::new(|| Ok(Box::new(GoldHashIdx::<GK, u64>::new()) as Box<dyn MapLike>)), p(grp5, vec![], 3, 4)), &|_| {}));
+        reg.add(audit(idx_g("GoldHashIdx<GK>/equal-hash-groups/prefill7+batch+shrink", Box::new(|| Ok(Box::new(IdxX(GoldHashIdx::<GK, u64>::new())) as Box<dyn MapLike>)), p(&[0, 1, 30], gpre7.clone(), 3, 4)), &|s| {
+            s.extra.insert2 = true;
+            s.extra.shrink = true;
+        }));
+        // GoldHashMap (DefaultHasher::new(): fixed hasher); the optional hash cache is what relink() trusts
+        let gold_g = |label: &str, cfg: fn() -> GoldHashMapConfig, p: P| {
+            let mut s = spec(label, Box::new(move || Ok(Box::new(GoldX(GoldHashMap::<GK, u64, u32>::with_config(cfg()))) as Box<dyn MapLike>)), p);
+            s.with_compact = true;
+            s
+        };
+        reg.add(audit(gold_g("GoldHashMap<GK>[u32,cap5]/equal-hash-groups", || gold_cfg(1, false, false, true), p(grp4, vec![], 4, 5)), &|_| {}));
+        reg.add(audit(gold_g("GoldHashMap<GK>[u32,cap5,hash_cache]/equal-hash-groups", || gold_cfg(1, true, false, true), p(grp4, vec![], 4, 5)), &|_| {}));
+        reg.add(audit(gold_g("GoldHashMap<GK>[u32,cap5,auto_gc,hash_cache]/equal-hash-groups/5keys", || gold_cfg(1, true, true, true), p(grp5, vec![], 3, 4)), &|_| {}));
+        reg.add(audit(gold_g("GoldHashMap<GK>[u32,cap5,hash_cache]/equal-hash-groups/prefill7", || gold_cfg(1, true, false, true), p(&[0, 1, 30], gpre7.clone(), 3, 4)), &|s| {
+            s.extra.reserve = true;
+            s.extra.toggle = true;
+        }));
+        // ZiporaHashMap standard storage (`entry.hash == hash && entry.key == key`): groups + other groups under an ordinary hasher
+        // (Const(7) above makes ALL keys equal; Identity puts group g on home slot g)
+        let zip_g = |label: &str, make: Box<dyn Fn() -> Result<Box<dyn MapLike>, String>>, p: P| spec(label, make, p);
+        reg.add(audit(
+            zip_g(
+                "ZiporaHashMap<GK>[default]/FixedSip/equal-hash-groups",
+                Box::new(|| ZiporaHashMap::<GK, u64, FixedSip>::with_config_and_hasher(ZiporaHashMapConfig::default(), FixedSip).map(|m| Box::new(m) as Box<dyn MapLike>).map_err(|e| e.to_string())),
+                p(grp4, vec![], 4, 5),
+            ),
+            &|_| {},
+        ));
+        reg.add(audit(
+            zip_g(
+                "ZiporaHashMap<GK>[default]/Identity/equal-hash-groups/5keys",
+                Box::new(|| ZiporaHashMap::<GK, u64, TableBuild>::with_config_and_hasher(ZiporaHashMapConfig::default(), TableBuild(vec![])).map(|m| Box::new(m) as Box<dyn MapLike>).map_err(|e| e.to_string())),
+                p(grp5, vec![], 3, 4),
+            ),
+            &|_| {},
+        ));
+        // groups 1 and 17 share home slot 1 of the 16-slot table but have different hashes; 10,11 / 170,171 are equal-hash pairs
+        reg.add(audit(
+            zip_g(
+                "ZiporaHashMap<GK>[default]/Identity/equal-hash-groups/same-slot-groups",
+                Box::new(|| ZiporaHashMap::<GK, u64, TableBuild>::with_config_and_hasher(ZiporaHashMapConfig::default(), TableBuild(vec![])).map(|m| Box::new(m) as Box<dyn MapLike>).map_err(|e| e.to_string())),
+                p(&[10, 11, 170, 171], vec![], 4, 5),
+            ),
+            &|_| {},
+        ));
+        reg.add(audit(
+            zip_g(
+                "ZiporaHashMap<GK>[default]/FixedSip/equal-hash-groups/prefill14",
+                Box::new(|| ZiporaHashMap::<GK, u64, FixedSip>::with_config_and_hasher(ZiporaHashMapConfig::default(), FixedSip).map(|m| Box::new(m) as Box<dyn MapLike>).map_err(|e| e.to_string())),
+                p(&[0, 1, 30], vec![30, 31, 32, 40, 41, 50, 51, 60, 70, 80, 90, 100, 110, 120], 3, 4),
+            ),
+            &|_| {},
+        ));
+        // SmallMap after the promotion (ZiporaHashMap<K, V, ahash::RandomState> inside) and EasyHashMap (the same map inside)
+        reg.add(audit(spec("SmallMap<GK>/equal-hash-groups/prefill7", Box::new(|| Ok(Box::new(SmallClone(SmallMap::<GK, u64>::new())) as Box<dyn MapLike>)), p(&[0, 1, 30], gpre7.clone(), 4, 5)), &|s| s.extra.clone = true));
+        reg.add(audit(spec("SmallMap<GK>/equal-hash-groups/prefill8", Box::new(|| Ok(Box::new(SmallMap::<GK, u64>::new()) as Box<dyn MapLike>)), p(&[0, 1, 2, 30], vec![30, 31, 40, 41, 50, 60, 70, 80], 3, 4)), &|_| {}));
+        let easy_g = |label: &str, p: P| {
+            let mut s = spec(label, Box::new(|| Ok(Box::new(EasyX(EasyHashMap::<GK, u64>::with_default(u64::MAX))) as Box<dyn MapLike>)), p);
+            s.with_setmut = false;
+            s.extra.get_or_insert = true;
+            s
+        };
+        reg.add(audit(easy_g("EasyHashMap<GK>/equal-hash-groups", p(grp4, vec![], 3, 4)), &|_| {}));
+        reg.add(audit(easy_g("EasyHashMap<GK>/equal-hash-groups/prefill10", p(&[0, 1, 30], vec![30, 31, 32, 40, 41, 50, 60, 70, 80, 90], 3, 4)), &|s| {
+            s.extra.retain = true;
+            s.extra.shrink = true;
+        }));
     });
 }
